@@ -150,7 +150,10 @@ META = {
                   "with invertible matrix: lu(A, A*f) has the coefficients of f and lives in the domain of A; uniqueness "
                   "(hence precomputed factors agree); the system handed to gmres/cg is (W, projections of b) in weak form "
                   "and (M^-1 W, coefficients of b) in strong form, rejected with ValueError iff b is outside the range, and "
-                  "both have the same solutions; IterationCounter.count / residuals for every callback sequence; every blocked "
+                  "both have the same solutions; IterationCounter.count / residuals for every callback sequence; each of the three "
+                  "iterative wrappers passes return_residuals to the callback (regenerated table), hence for all four "
+                  "return_residuals x return_iteration_count combinations the residual list is returned iff requested with one "
+                  "entry per iteration and the count is the number of callbacks; every blocked "
                   "branch (gmres weak/strong, lu) cuts the solution by A.domain_spaces. "
                   "Convergence to the tolerance with info 0 is SciPy's (partial).",
     "level_note": "Trusted: Coq kernel; translators/opclasses.py; SciPy solve/gmres/cg as oracles; harness. Blocked "
